@@ -503,6 +503,61 @@ func runC15(c *mon.Ctx) {
 				}
 			}
 		}
+		// the switches of a *second* layouter on the same font are honoured too:
+		// same feature tags, flipped values (the composition does not involve
+		// NewLayouter, so remembered selections would show here)
+		if gsubOn != nil {
+			flip := func(m map[string]bool) map[string]bool {
+				out := map[string]bool{"liga": true, "kern": true}
+				for t, v := range m {
+					out[t] = !v
+				}
+				return out
+			}
+			for round := 0; round < 2; round++ {
+				fs, fp := gsubOn, gposOn
+				if round == 0 {
+					fs, fp = flip(gsubOn), flip(gposOn)
+					// make sure both maps have the same key sets in both rounds
+					gsubOn, gposOn = flip(fs), flip(fp)
+				}
+				var lay2 *sfnt.Layouter
+				var got2 []glyph.Info
+				if k.Guard("NewLayouter+Layout (second layouter)", func() {
+					var err error
+					lay2, err = f.NewLayouter(lang, fs, fp)
+					if err == nil {
+						got2 = copySeq(lay2.Layout(string(s)))
+					}
+				}) {
+					return
+				}
+				if lay2 == nil {
+					break
+				}
+				want2 := copySeq(base)
+				if f.Gsub != nil {
+					ll := f.Gsub.FindLookups(lang, fs)
+					want2 = gtab.NewContext(f.Gsub.LookupList, f.Gdef, ll).Apply(want2)
+				}
+				for i := range want2 {
+					if f.Gdef != nil && f.Gdef.GlyphClass[want2[i].GID] == gdef.GlyphClassMark {
+						continue
+					}
+					want2[i].Advance = funit.Int16(f.GlyphWidth(want2[i].GID))
+				}
+				if f.Gpos != nil {
+					ll := f.Gpos.FindLookups(lang, fp)
+					want2 = gtab.NewContext(f.Gpos.LookupList, f.Gdef, ll).Apply(want2)
+				}
+				k.Eval()
+				if !sameSeq(got2, want2) {
+					k.Fail("mismatch", "layout:feature-switches-of-later-layouter-ignored", "a further NewLayouter on the same font with gsub=%v gpos=%v lays out\n got %s\nwant %s (%s)", fs, fp, seqString(got2), seqString(want2), desc)
+					return
+				}
+			}
+			k.Class("layout:second-layouter-flipped-switches")
+		}
 		// history: further calls on the same layouter give what a fresh one gives
 		for h := 0; h < 4; h++ {
 			var t []rune
@@ -715,7 +770,7 @@ func runC15(c *mon.Ctx) {
 		k.Class(fmt.Sprintf("fixed-pitch=%v", isFixed))
 	})
 	req := []string{"select:exact-language", "select:non-matching-language,>=2-systems", "layout:gsub-effect", "layout:gpos-effect", "layout:no-rule-applies",
-		"kern:glyf", "kern:cff", "kern-subtable:accumulate", "kern-subtable:minimum", "kern-subtable:override", "kern-subtable:ignored", "kern-subtable:>10920-pairs", "layout:gdef-marks", "layout:history-compared", "fixed-pitch=true", "fixed-pitch=false",
+		"kern:glyf", "kern:cff", "kern-subtable:accumulate", "kern-subtable:minimum", "kern-subtable:override", "kern-subtable:ignored", "kern-subtable:>10920-pairs", "layout:gdef-marks", "layout:history-compared", "layout:second-layouter-flipped-switches", "fixed-pitch=true", "fixed-pitch=false",
 		"features:all-off", "features:explicit", "features:nil-defaults"}
 	for s := 0; s < 32; s++ {
 		req = append(req, fmt.Sprintf("ligature-subset=%d", s))
